@@ -11,6 +11,8 @@ import PySMT.Impl.Parser
 ```
 command := L <hex|-> | P <hex name> <k> <hex>*k | U <int> | O <int> | DS <hex> <arity> | FS <hex> <ty>
          | D <hex cmd> <hex name> <symty> | F <hex name> <k> (<hex> <ty>)*k <ty> <term> | A <term> | T <hex name> <k> <term>*k
+         | AS <term> <weight term> <hex id> | OB <hex name> <term> <k> (<hex key> <hex value>)*k
+         | MM <hex name> <k> <term>*k <m> (<hex key> <hex value>)*m | LO <int>
 item    := - | A <term> | F <hex name> <k> (<hex> <ty>)*k <ty> <term> | T <k> <term>*k
 ```
 -/
@@ -30,6 +32,13 @@ def encCmd : Parser.Command → String
     s!"F {hex n} {fs.length}" ++ String.join (fs.map (fun f => s!" {hex f.name} {encTy f.ret}")) ++ s!" {encTy r} {encTerm b}"
   | .assert t => s!"A {encTerm t}"
   | .terms n ts => s!"T {hex n} {ts.length}" ++ String.join (ts.map (fun t => " " ++ encTerm t))
+  | .assertSoft t w i => s!"AS {encTerm t} {encTerm w} {hex i}"
+  | .objective n t os =>
+    s!"OB {hex n} {encTerm t} {os.length}" ++ String.join (os.map (fun o => s!" {hex o.1} {hex o.2}"))
+  | .minmax n ts os =>
+    s!"MM {hex n} {ts.length}" ++ String.join (ts.map (fun t => " " ++ encTerm t)) ++ s!" {os.length}"
+      ++ String.join (os.map (fun o => s!" {hex o.1} {hex o.2}"))
+  | .loadObjective n => s!"LO {n}"
 
 def pread (text : String) : String :=
   match Sexp.read text with
